@@ -53,6 +53,19 @@ func (g *G) mover() gen.Ex {
 	default:
 		pred = gen.Call{Name: "starts-with", Args: []gen.Ex{gen.Path{Steps: []gen.Step{{Axis: "self", Test: "node()"}}}, gen.Lit{S: g.r.Pick([]string{"1", "2", ""})}}}
 	}
+	if g.r.Chance(25) {
+		// positional predicates that keep MORE than one node per parent
+		switch g.r.Intn(4) {
+		case 0:
+			pred = gen.Bin{Op: ">", L: gen.Call{Name: "position"}, R: num(1)}
+		case 1:
+			pred = gen.Bin{Op: "!=", L: gen.Call{Name: "position"}, R: num(1)}
+		case 2:
+			pred = gen.Bin{Op: "<", L: gen.Call{Name: "position"}, R: gen.Call{Name: "last"}}
+		default:
+			pred = gen.Bin{Op: ">=", L: gen.Call{Name: "position"}, R: num(2)}
+		}
+	}
 	switch g.r.Intn(8) {
 	case 0, 1, 2:
 		// multi-step path whose last step carries a possibly-numeric predicate: merge query
